@@ -10,7 +10,7 @@ C06.e position families cover every admissible position
 import ast
 
 from ..core.flow import call_name, calls_in, is_name
-from ..core.loader import AnalysisError, short, own_nodes, norm
+from ..core.loader import AnalysisError, short, own_nodes, norm, canon, function_locals
 from ..core.report import where
 
 TECHNIQUE = ("who-may-construct rule for SMT symbols; creator-use vs declaration agreement over the encoding modules; "
@@ -386,7 +386,7 @@ def rule_d(ctx, out):
 ENC_PKG = "smt_encoding.complete_encoding"
 # range(...) stops that combine several bounds; each read in the source
 RANGE_TRIAGED = {
-    "dependent_pre_order:min(b0-1,bounds.upper_bound_theta_value(bef_instr_theta),bounds.upper_bound_theta_value(aft_instr_theta)+1)":
+    "dependent_pre_order:min(b0-1,bounds.upper_bound_theta_value(L1),bounds.upper_bound_theta_value(L2)+1)":
         "load-before-store family: positions j >= ub(load) have no later load position, the conjunction is empty (true), nothing to emit; "
         "the store's own term is ub(store)+1",
 }
@@ -462,7 +462,7 @@ def rule_e(ctx, out):
             t = _ub_term(stop)
             if t is None:
                 if any(_ub_term(x) for x in ast.walk(stop)):
-                    key = f"{f.name}:{norm(stop).replace(' ', '')}"
+                    key = f"{f.name}:{canon(norm(stop), function_locals(f.node)).replace(' ', '')}"
                     n_u += 1
                     if key in RANGE_TRIAGED:
                         out.unproven.append({"site": key, "reason": RANGE_TRIAGED[key]})
